@@ -150,5 +150,20 @@ def build(fields):
             if x and x["r"] >= 5:
                 curves["sw_%s_%s" % (fid, tag)] = x; return
         raise Exception("no curve over " + fid)
+    # curves over fields whose bit length leaves 0, 1, 2 spare bits in the top byte (serialization flags)
+    def search_prime(p, kind):
+        T = Tower(p, [])
+        for b in range(1, p):
+            if kind == "sw":
+                x = describe(fields, "", "f%d" % p, "sw", 1 if b % 2 else 0, b)
+            else:
+                if T.is_square(0, b): continue
+                x = describe(fields, "", "f%d" % p, "te", 1, b)
+            if x and x["r"] >= 5 and x["h"] >= 1 and (kind == "sw" or x["complete"]):
+                key = ("sw%d_%d_%d" % (p, (1 if b % 2 else 0), b)) if kind == "sw" else ("te%d_1_%d" % (p, b))
+                curves[key] = x; return key
+        raise Exception("no curve over f%d" % p)
+    for pp in (61, 127, 251):
+        search_prime(pp, "sw"); search_prime(pp, "te")
     search_ext("f7_2", 0, "a0"); search_ext("f7_2", 1, "a1"); search_ext("f13_2", 0, "a0"); search_ext("f7_3", 0, "a0")
     return {"curves": curves}
